@@ -697,6 +697,12 @@ impl ClusterState {
             .collect();
         self.update_tablets(raw);
     }
+
+    /// `(keyspace, table, number of tablets)` of every table of `locator.tablets`, sorted.
+    #[allow(missing_docs)]
+    pub fn verif_tablet_tables(&self) -> Vec<(String, String, usize)> {
+        crate::routing::locator::tablets::verif::info_table_sizes(&self.locator.tablets)
+    }
 }
 
 /// Additional API for interop-based code.
